@@ -41,8 +41,7 @@ Lemma nonseekable_as_bytes bs off r :
   load_model KNonSeekable bs off = LOk r ->
   load_model KBytes (skipn off bs) 0 = LOk (mkLoaded (l_ops r) (l_end r) None).
 Proof.
-  unfold load_model. destruct (load_stream (skipn off bs) 0) as [[ops e]|x] eqn:E; intro H; [|discriminate].
-  inversion H; subst. reflexivity.
+  exact (nonseekable_as_bytes_model bs off r).
 Qed.
 
 Lemma dumps_is_first_pickle s p :
